@@ -168,14 +168,25 @@ class Model:
         self.inlined = []
         if not os.environ.get('MIROS_VERIF_NO_INLINE'):
             from .normalise import inline_fresh_helpers, specialise_fresh_factories, nest_lifted_closures, split_conditional_expressions
+            from .normalise import strip_diagnostics, strip_annotations
+            na = strip_annotations(self.modules)
+            from .normalise import propagate_fresh_constants, specialise_fresh_optional_params
+            self.inlined += propagate_fresh_constants(self.modules)
+            self.inlined += specialise_fresh_optional_params(self.modules)
+            from .normalise import canonical_string_formatting
+            nf = canonical_string_formatting(self.modules)
             split_conditional_expressions(self.modules)
-            from .normalise import strip_diagnostics
             nd = strip_diagnostics(self.modules)
             from .normalise import inline_tail_delegations
-            self.inlined = specialise_fresh_factories(self.modules) + inline_tail_delegations(self.modules) + nest_lifted_closures(self.modules) + inline_fresh_helpers(self.modules)
-            from .normalise import propagate_attribute_aliases, unroll_literal_loops
+            self.inlined += specialise_fresh_factories(self.modules) + inline_tail_delegations(self.modules) + nest_lifted_closures(self.modules) + inline_fresh_helpers(self.modules)
+            from .normalise import propagate_attribute_aliases, unroll_literal_loops, strip_fresh_write_only_state
+            self.inlined += strip_fresh_write_only_state(self.modules)
             self.inlined += unroll_literal_loops(self.modules)
             self.inlined += propagate_attribute_aliases(self.modules)
+            if nf:
+                self.inlined.append(('<package>', [], '%d f-strings / %%-formats written as str.format' % nf))
+            if na:
+                self.inlined.append(('<package>', [], '%d type annotations dropped' % na))
             if nd:
                 self.inlined.append(('<package>', [], '%d logging statements with effect-free arguments dropped' % nd))
             split_conditional_expressions(self.modules)
